@@ -75,8 +75,12 @@ def jobs(tier):
         J.append(_cfg('condfresh-N1', 1, 2, 3, 'const', 'fresh', tier))
         J.append(_cfg('condfresh-N2', 2, 1, 3, 'const', 'fresh', tier))
         J.append(_cfg('wide-N2', 2, 1, 10 ** 6, 'const', 'none', tier, K=4))
-        J.append(_cfg('parallel-N2', 2, 2, 3, 'const', 'none', tier,
-                      parallel=True))
+        for p0 in (True, False):
+            for p1 in (True, False):
+                if p0 or p1:
+                    J.append(_cfg('parallel-N2-%d%d' % (p0, p1), 2, 2, 3,
+                                  'const', 'none', tier, parallel=True,
+                                  par_fixed={'0': p0, '1': p1}))
         # off-integer times: concrete dyadic floats chosen by forking
         J.append(_cfg('dyadic-N2', 2, 2, 3, 'const', 'none', tier,
                       ts_grid=[0.5, 1.5, 0.25], iv_grid=[0.75, 1.5, 2.0],
